@@ -144,6 +144,110 @@ def readLim : List Nat → Rd → List Ev → RdRes
     | (.err c, s', r) => { pieces := [], fin := .err c, s := s', script := r, left := ns }
     | (.pending, s', r) => { pieces := [], fin := .open_, s := s', script := r, left := n :: ns }
 
+/-! ## Buffered WebTransport uni streams: `pending_recv_streams` and `wt_uni_streams`
+
+`h3/src/connection.rs` `ConnectionInner::poll_accept_recv`: every uni stream the transport hands
+over is appended to `pending_recv_streams`; one pass of `for stream in
+self.pending_recv_streams.iter_mut()` polls `poll_type` of each, in that order: a stream whose
+header is complete is taken out and — `AcceptedRecvStream::WebTransportUni(id, s) if
+self.config.settings.enable_webtransport` — `self.accepted_streams.wt_uni_streams.push((id, s))`;
+a stream that ended inside its header (`PollTypeError::EndOfStream`) is removed silently; one whose
+header is still incomplete stays.  `h3-webtransport/src/server.rs` `AcceptUni::poll`:
+`conn.inner.poll_accept_recv(cx)?` and then `streams.wt_uni_streams.pop()` — the entry pushed
+LAST; `Pending` when the `Vec` is empty.  (Bidirectional streams are not buffered by h3:
+`accept_bi` takes the next one from the transport and keeps it inside its own future until the
+first frame is there.) -/
+
+/-- an incoming uni stream as `pending_recv_streams` holds it: the QUIC stream id and what the
+    transport has delivered / will deliver on it -/
+structure UniIn where
+  stream : Nat
+  evs : List Ev
+deriving Repr, DecidableEq
+
+/-- an entry of `wt_uni_streams`, `(SessionId, BufRecvStream)`: the session id the header
+    carried, the `BufRecvStream` (what is buffered behind the header, `eos`) and the transport's
+    answers from then on; `stream` = `recv_id()` of the `BufRecvStream` -/
+structure WtUni where
+  stream : Nat
+  session : Nat
+  rd : Rd
+  script : List Ev
+deriving Repr, DecidableEq
+
+/-- what one pass over `pending_recv_streams` does with one stream -/
+inductive UniFate where
+  /-- header complete, WebTransport type, extension enabled: pushed on `wt_uni_streams` -/
+  | surface (session : Nat) (rd : Rd) (script : List Ev)
+  /-- removed and never surfaced: ended inside its header; another stream type (their arms are
+      C04's subject); WebTransport type with the extension off (the `_ => ()` arm) -/
+  | gone
+  /-- header still incomplete: stays in `pending_recv_streams` -/
+  | wait
+deriving Repr, DecidableEq
+
+def uniFate (enabled : Bool) (evs : List Ev) : UniFate :=
+  match H3.UniAccept.resolve (evs.length + 1) {} evs with
+  | .resolved s rest =>
+    match H3.UniAccept.intoStream s with
+    | some (.wtUni id) => if enabled then .surface id (Rd.ofUni s) (uniScript s rest) else .gone
+    | _ => .gone
+  | .waiting _ => .wait
+  | .dropped => .gone
+  | .internal => .gone
+
+/-- the part of `ConnectionInner` that `accept_uni` touches -/
+structure Accepted where
+  /-- `pending_recv_streams`, in the order the transport handed the streams over -/
+  pending : List UniIn := []
+  /-- `accepted_streams.wt_uni_streams`; `push` appends at the end -/
+  wt : List WtUni := []
+deriving Repr, DecidableEq
+
+/-- the body of the `for` loop for one stream, `acc` = what the pass has built so far -/
+def Accepted.passOne (enabled : Bool) (acc : Accepted) (u : UniIn) : Accepted :=
+  match uniFate enabled u.evs with
+  | .surface id rd sc => { acc with wt := acc.wt ++ [⟨u.stream, id, rd, sc⟩] }
+  | .gone => acc
+  | .wait => { acc with pending := acc.pending ++ [u] }
+
+/-- one `poll_accept_recv` (the part about uni streams that are not h3's own) -/
+def Accepted.pass (enabled : Bool) (a : Accepted) : Accepted :=
+  a.pending.foldl (Accepted.passOne enabled) { pending := [], wt := a.wt }
+
+/-- `Vec::pop` -/
+def popLast {α} (l : List α) : Option (α × List α) :=
+  match l.reverse with
+  | [] => none
+  | x :: r => some (x, r.reverse)
+
+/-- `AcceptUni::poll`: `none` = `Poll::Pending` -/
+def Accepted.acceptUni (enabled : Bool) (a : Accepted) : Option WtUni × Accepted :=
+  match popLast (a.pass enabled).wt with
+  | none => (none, a.pass enabled)
+  | some (x, r) => (some x, { a.pass enabled with wt := r })
+
+/-- the transport hands over one more stream -/
+def Accepted.arrive (a : Accepted) (u : UniIn) : Accepted := { a with pending := a.pending ++ [u] }
+
+/-- what the application and the peer do, as far as `accept_uni` is concerned -/
+inductive AOp where
+  /-- the peer opens a uni stream and the transport delivers `evs` on it -/
+  | arrive (u : UniIn)
+  /-- one `accept_uni().await` that is polled once (it answers or stays `Pending`) -/
+  | accept
+deriving Repr, DecidableEq
+
+/-- the streams surfaced by a sequence of arrivals and `accept_uni` polls, in order, and the state
+    left behind -/
+def runAccepts (enabled : Bool) : Accepted → List AOp → List WtUni × Accepted
+  | a, [] => ([], a)
+  | a, .arrive u :: r => runAccepts enabled (a.arrive u) r
+  | a, .accept :: r =>
+    match a.acceptUni enabled with
+    | (some e, a') => (e :: (runAccepts enabled a' r).1, (runAccepts enabled a' r).2)
+    | (none, a') => runAccepts enabled a' r
+
 /-! ## Writing on a WebTransport stream
 
 `h3-webtransport/src/server.rs` `OpenBi`/`OpenUni`: `WriteBuf::from(BidiStreamHeader::
